@@ -43,12 +43,50 @@ def ensure_lock():
             shutil.copy(src, lock)
 
 
-def run_harnesses(harnesses, features=None, jobs=16, timeout=1500, extra=()):
+def parse_blocks(out):
+    """per-harness verdicts from the streamed output: 'Thread N: Checking harness X...' announces, a bare 'Thread N: ' line
+    starts that harness's result block. returns {harness: 'ok'|'failed'|'timeout'}"""
+    cur = {}      # thread -> harness
+    res = {}
+    active = None
+    for line in out.split("\n"):
+        m = re.match(r"\s*Thread (\d+): Checking harness (\S+?)\.\.\.\s*$", line)
+        if m:
+            cur[m.group(1)] = m.group(2)
+            active = None
+            continue
+        m = re.match(r"\s*Thread (\d+):\s*$", line)
+        if m:
+            active = cur.get(m.group(1))
+            continue
+        if re.match(r"\s*Thread \d+:", line):
+            active = None
+            continue
+        if active is None:
+            # single-threaded runs print 'Checking harness X...' without a thread prefix
+            m = re.match(r"\s*Checking harness (\S+?)\.\.\.\s*$", line)
+            if m:
+                active = m.group(1)
+            continue
+        if "VERIFICATION:- SUCCESSFUL" in line:
+            res.setdefault(active, "ok")
+        elif "VERIFICATION:- FAILED" in line:
+            if res.get(active) != "timeout":
+                res[active] = "failed"
+        elif "CBMC timed out" in line or "out of memory" in line.lower():
+            res[active] = "timeout"
+    return res
+
+
+def run_harnesses(harnesses, features=None, jobs=16, timeout=1500, extra=(), harness_timeout=None):
     """one cargo-kani invocation for all harnesses; returns dict name -> 'ok'|'failed'|'undecided'
-    plus the raw log"""
+    plus the raw log. A harness that exceeds harness_timeout (CBMC timed out) is undecided, never failed;
+    when the whole run is cut off, harnesses that had already finished keep their verdict."""
     ensure_lock()
     t0 = time.time()
     cmd = ["cargo", "kani", "--output-format", "terse", "-j", str(jobs), "--exact"]
+    if harness_timeout:
+        cmd += ["-Z", "unstable-options", "--harness-timeout", "%ds" % int(harness_timeout)]
     if features:
         cmd += ["--features", features]
     for h in harnesses:
@@ -57,26 +95,39 @@ def run_harnesses(harnesses, features=None, jobs=16, timeout=1500, extra=()):
     rc, out, timed_out = _run(cmd, timeout)
     log = "\n".join(l for l in out.split("\n") if not NOISE.search(l))
     status = {}
+    blocks = parse_blocks(out)
     failed = set(m.group(1).strip() for m in re.finditer(r"Verification failed for - (\S+)", out))
     m = re.search(r"Complete - (\d+) successfully verified harnesses, (\d+) failures, (\d+) total", out)
     nochecks = re.search(r"error: Failed to match the following harness|error\[E|could not compile|error: no harnesses matched", out)
+    timeouts = [h for h in harnesses if blocks.get(h) == "timeout"]
     if m and not timed_out and not nochecks:
         total = int(m.group(3))
         for h in harnesses:
-            status[h] = "failed" if h in failed else "ok"
+            if blocks.get(h) == "timeout":
+                status[h] = "undecided"
+            else:
+                status[h] = "failed" if h in failed else "ok"
         if total != len(harnesses):
             for h in harnesses:
                 if status[h] == "ok":
                     status[h] = "undecided"
     else:
         for h in harnesses:
-            status[h] = "failed" if h in failed else "undecided"
+            b = blocks.get(h)
+            if nochecks:
+                status[h] = "undecided"
+            elif b == "failed" or (h in failed and b != "timeout"):
+                status[h] = "failed"
+            elif b == "ok" and timed_out:
+                status[h] = "ok"          # finished before the run was cut off
+            else:
+                status[h] = "undecided"
     checks = sum(int(x) for x in re.findall(r"\*\* \d+ of (\d+) failed", out))
     covers = re.findall(r"\*\* (\d+) of (\d+) cover properties satisfied", out)
     return {"status": status, "log": log, "timed_out": timed_out, "rc": rc, "wall_s": time.time() - t0,
             "cbmc_checks": checks, "covers_satisfied": sum(int(a) for a, b in covers), "covers_total": sum(int(b) for a, b in covers),
             "cmd": " ".join(cmd[:8]) + " ... (%d harnesses)" % len(harnesses),
-            "compile_error": bool(nochecks)}
+            "compile_error": bool(nochecks), "harness_timeouts": timeouts}
 
 
 def diagnose(harness, features=None, timeout=900):
